@@ -357,6 +357,49 @@ example : Reachable (stateAt (trLate.take 8)) ∧ deadStream (stateAt (trLate.ta
     hasKey (stateAt (trLate.take 8)).entries 1 = false ∧ (stateAt (trLate.take 8)).done = false :=
   ⟨reachable_stateAt _, ⟨.eof, [], by decide, rfl⟩, by decide, by decide, by decide, by decide⟩
 
+/-! ### a frame that does not decode strictly as work-done never yields a success
+
+  Since commit 1454f2e the client decodes the payload of a work-done / signal / error frame with its
+  strict decoder (an unknown field is an error).  A frame with message ID work-done whose payload
+  belongs to another message type - what a single flipped ID byte turns a signal frame into - is
+  therefore the item `.msg (.workDone r none)` (the harness classifies frames with the same strict
+  decoder, harness/atpcs/wire.go `Classify`), and in the model such an item can only fail run `r`. -/
+
+/-- Handling a work-done frame whose payload does not decode creates no success result, for no run:
+    every `ok` entry after the step was there before it. -/
+theorem C08_undecodable_done_no_success {s s' : State} {l : Tid} {r r' : Run} {x : Nat}
+    (h : Step s (.lDeliver l) s')
+    (hl : s.loops.lookup l = some (.handle (some (.workDone r none))))
+    (h1 : s'.entries.lookup r' = some (.result (.ok x))) :
+    s.entries.lookup r' = some (.result (.ok x)) := by
+  apply Classical.byContradiction
+  intro h0
+  obtain ⟨t, ht, hlk⟩ := C06_set_from_same_run h h1 h0
+  cases ht
+  rw [hl] at hlk
+  cases hlk
+
+/-- REGRESSION WITNESS (type flip): Execute 1 waits, the server's frame for run 1 has ID work-done
+    but a payload that is not a work-done message. -/
+def trTypeFlip : List Label :=
+  [.rsCall, .rsSend true, .sRecv, .envPut (.hello 3 true), .rsRead, .rsRet,
+   .call 1 1 false false, .cRegister 1 (some 10), .cSend 1 true, .sRecv, .cWait 1,
+   .envPut (.msg (.workDone 1 none)), .lRead 10, .lDeliver 10, .cTake 1]
+
+/-- The run exists, Execute 1 ends with an ERROR, nothing was recorded as an intact work-done, and
+    the history in which it returns any success is not a history of the model. -/
+theorem C08_typeflip_witness :
+    (run init trTypeFlip).isSome = true ∧
+    (stateAt trTypeFlip).callers.lookup 1 = some ⟨1, false, false, .returned .err⟩ ∧
+    (stateAt trTypeFlip).consumed = [] ∧
+    (run init (trTypeFlip ++ [.cRet 1 .err])).isSome = true ∧
+    run init (trTypeFlip ++ [.cRet 1 (.ok 0)]) = none := by decide
+
+/- non-vacuity of `C08_undecodable_done_no_success`: the step of the witness is an instance -/
+example : Step (stateAt (trTypeFlip.take 13)) (.lDeliver 10) (stateAt (trTypeFlip.take 14)) ∧
+    (stateAt (trTypeFlip.take 13)).loops.lookup 10 = some (.handle (some (.workDone 1 none))) ∧
+    (stateAt (trTypeFlip.take 14)).entries.lookup 1 = some (.result .err) := by decide
+
 /-! ### axioms used -/
 
 #print axioms C08_fanout
@@ -368,5 +411,7 @@ example : Reachable (stateAt (trLate.take 8)) ∧ deadStream (stateAt (trLate.ta
 #print axioms C08_consumed_intact
 #print axioms C08_readschema
 #print axioms C08_close_returns
+#print axioms C08_undecodable_done_no_success
+#print axioms C08_typeflip_witness
 
 end Arca.AtpClient
